@@ -707,6 +707,10 @@ func R5(pkgs ...string) func(p *core.Prog) *core.Result {
 		}
 		if in["ubjson"] {
 			ubjsonMarkerTables(p, r)
+			scanExit(p, r)
+		}
+		if in["json"] {
+			numberKind(p, r)
 		}
 		if in["cborl"] && p.LookupFunc("cborl", "(*Parser).stepNeg") == nil {
 			r.Undecided(".NEG-SIGN", "cborl.(*Parser).stepNeg", "decoder of major type 1 (stepNeg) not found")
